@@ -141,6 +141,8 @@ class Ctx:
         self.global_cache: Dict[Any, Any] = {}
         self.yielded: List[Any] = []
         self.call_log: List[Any] = []  # calls made through contracts on this path, in order (ghost; see speclib.CALLS)
+        self.top_contract = None
+        self.top_ns = None
         self.entry_measure = None
 
     # ---- fresh symbols
@@ -435,6 +437,18 @@ class Engine:
             cls = V.ExtClass(cls.name)
         if isinstance(cls, V.ExtClass):
             return self.lib.isinstance_ext(ctx, v, cls.name)
+        if isinstance(cls, V.ClassTagV):
+            # isinstance(v, type(y)): the dynamic class of v is a subclass of the class whose tag is given
+            if isinstance(v, OptV):
+                return speclib_and(self.b_not(v.is_none), self.isinstance_of(ctx, v.val, cls))
+            if not isinstance(v, Obj):
+                return False
+            cands = [v.cls] if v.exact else v.cls.all_subclasses()
+            alts = []
+            for c1 in cands:
+                for c2 in c1.mro():
+                    alts.append(z3.And(self.tag_fn(v.ref) == self.class_id(c1), cls.term == self.class_id(c2)))
+            return z3.Or(*alts) if alts else False
         if isinstance(cls, V.ClassVal):
             cls = cls.cls
         if isinstance(v, Obj):
@@ -536,7 +550,9 @@ class Engine:
             if isinstance(other, (z3.ExprRef, Obj, RecV, SymSet, SymSeq, PyList, tuple, int, str, bool, V.EnumV)):
                 return False
             raise EngineLimit("== None of %r" % (other,))
-        if isinstance(a, z3.ExprRef) or isinstance(b, z3.ExprRef):
+        if isinstance(a, z3.ExprRef) or isinstance(b, z3.ExprRef) or (
+                isinstance(a, V.FractionV) and isinstance(b, (V.FractionV, int))) or (
+                isinstance(b, V.FractionV) and isinstance(a, int)):
             from . import strmodel as _sm
 
             if _sm.ENABLED:
@@ -929,6 +945,7 @@ class Engine:
         if res is not None and res.entry_pc is None:
             res.entry_pc = list(ctx.pc)
             res.entry_axioms = list(ctx.axioms)
+        ctx.top_contract, ctx.top_ns = contract, ns
         ctx.entry_measure = None
         if contract.decreases is not None:
             ctx.entry_measure = tuple(self.run_spec(ctx, contract.decreases, ns))
